@@ -109,7 +109,7 @@ impl Property for C02 {
         "C02"
     }
     fn rule(&self) -> String {
-        "Cases: (dividend of any zoo type/length/provenance, divisor vector of any type/length/provenance or native integer, form in {/ x6, % x6, div_rem}). Divisor classes: value 0 (empty or zeros(m)), 1, a, a+-1, powers of two, small value in a long vector (m > n and m > capacity of the dividend type), half-width random, random. Enumerated: all (n,a,m,b) n,m<=3/6 x 19x19 pairings x {/,%,div_rem}; native lattice; divisor-length sweep m in 1..capacity(L)+70 with value in {1,2,3} for every fixed dividend type and every divisor type able to hold m bits. Oracle: BigUint div_rem; additionally q*b+r=a and r<b asserted on read-back values; zero-valued divisor must panic in every form, non-zero must not. Non-trivial: divisor non-zero, val b <= val a (the subtract loop runs) and the quotient has >= 2 set bits; zero-divisor cases are counted in their own class. Distinct by hash of the whole case.".into()
+        "Cases: (dividend of any zoo type/length/provenance, divisor vector of any type/length/provenance or native integer, form in {/ x6, % x6, div_rem}). Divisor classes: value 0 (empty or zeros(m)), 1, a, a+-1, powers of two, small value in a long vector (m > n and m > capacity of the dividend type), half-width random, random. Enumerated: all (n,a,m,b) n,m<=4/6 x 19x19 pairings x {/,%,div_rem}; native lattice; divisor-length sweep m in 1..capacity(L)+70 with value in {1,2,3} for every fixed dividend type and every divisor type able to hold m bits. Oracle: BigUint div_rem; additionally q*b+r=a and r<b asserted on read-back values; zero-valued divisor must panic in every form, non-zero must not. Non-trivial: divisor non-zero, val b <= val a (the subtract loop runs) and the quotient has >= 2 set bits; zero-divisor cases are counted in their own class. Distinct by hash of the whole case.".into()
     }
     fn random_cases(&self, tier: Tier) -> u64 {
         tier.pick(200000, 8000000)
@@ -125,14 +125,14 @@ impl Property for C02 {
         prop_oneof![3 => vec_case, 1 => nat_case].boxed()
     }
     fn exhaustive_subspaces(&self, tier: Tier) -> Vec<String> {
-        let k = tier.pick(3, 6);
+        let k = tier.pick(4, 6);
         vec![
             format!("all values of dividend and divisor for all lengths n,m<={} x 19x19 type pairings x {{/,%,div_rem}} (operator form rotates)", k),
             "divisor-length sweep: every divisor length m in 1..capacity+70 with value 1,2,3 for each fixed dividend type x each divisor type able to hold m bits".into(),
         ]
     }
     fn enumerate(&self, tier: Tier, sh: &mut Shard, f: &mut dyn FnMut(C02Case) -> bool) {
-        let k = tier.pick(3, 6);
+        let k = tier.pick(4, 6);
         let mut rot = 0usize;
         let kinds = [DivKind::Div, DivKind::Rem, DivKind::DivRem];
         for lt in 0..NT {
@@ -145,10 +145,14 @@ impl Property for C02 {
                         for a in all_values(n) {
                             for b in all_values(m) {
                                 for kind in kinds {
-                                    rot += 1;
-                                    let c = C02Case { a: Operand::canon(lt, a.clone()), b: Rhs::V(Operand::canon(rt, b.clone())), kind, form: FORMS[rot % 6] };
-                                    if !f(c) {
-                                        return;
+                                    for pa in scope_provs(lt) {
+                                        for pb in scope_provs(rt) {
+                                            rot += 1;
+                                            let c = C02Case { a: Operand { ty: lt, bits: a.clone(), prov: pa.clone() }, b: Rhs::V(Operand { ty: rt, bits: b.clone(), prov: pb }), kind, form: FORMS[rot % 6] };
+                                            if !f(c) {
+                                                return;
+                                            }
+                                        }
                                     }
                                 }
                             }
